@@ -196,6 +196,10 @@ func (env *SpecEnv) ident(name string) Val {
 				return u.readGlobal(env.st, o)
 			}
 		}
+		if gv, ok := u.eng.ghostVars[env.home.PkgPath+"."+name]; ok {
+			ty, so := u.resolveType(env.home, gv.T)
+			return Val{T: u.heapGet(env.st, "GV_"+mangle(lastSeg(env.home.PkgPath))+"_"+mangle(name), so), Ty: ty, So: so}
+		}
 		// zero-ary ghost
 		if g := u.eng.ghosts[env.home.PkgPath+"."+name]; g != nil && len(g.Params) == 0 {
 			return env.ghostCall(g, nil)
@@ -339,7 +343,7 @@ func (env *SpecEnv) quant(q *SQuant) Val {
 		n.bound[v.Name] = val
 		decls = append(decls, fmt.Sprintf("(%s %s)", bn, so))
 		if ty != nil {
-			if inv := u.typeInv(val); inv != "true" {
+			if inv := u.lemmaGuard(val); inv != "true" {
 				guards = append(guards, inv)
 			}
 		}
@@ -376,6 +380,10 @@ func (env *SpecEnv) sel(x *SSel) Val {
 	if id, ok := x.X.(*SIdent); ok {
 		if _, isVar := env.lookupValue(id.Name); !isVar {
 			if p := env.importedPkg(id.Name); p != nil {
+				if gv, ok := u.eng.ghostVars[p.Path()+"."+x.Name]; ok {
+					ty, so := u.resolveType(u.eng.pkgs[p.Path()], gv.T)
+					return Val{T: u.heapGet(env.st, "GV_"+mangle(lastSeg(p.Path()))+"_"+mangle(x.Name), so), Ty: ty, So: so}
+				}
 				obj := p.Scope().Lookup(x.Name)
 				switch o := obj.(type) {
 				case *types.Const:
